@@ -154,9 +154,9 @@ CouponList<A>* CouponList<A>::newList(std::istream& is, const A& allocator) {
   sketch->couponCount_ = couponCount;
   sketch->putOutOfOrderFlag(oooFlag); // should always be false for LIST
 
-  if (!emptyFlag) {
+  if (!emptyFlag || !compact) {
     // For stream processing, need to read entire number written to stream so read
-    // pointer ends up set correctly.
+    // pointer ends up set correctly (an updatable image carries the slots even when the sketch is empty).
     // If not compact, still need to read empty items even though in order.
     const uint32_t numToRead = (compact ? couponCount : static_cast<uint32_t>(sketch->coupons_.size()));
     read(is, sketch->coupons_.data(), numToRead * sizeof(uint32_t));
